@@ -6,7 +6,11 @@ WT="$1"; P="$2"; shift 2
 export GOPROXY=off GOSUMDB=off GOTOOLCHAIN=local
 cd "$WT" || exit 2
 git checkout -q -- . && git clean -fdq sourcecode-parser pathfinder-rules 2>/dev/null
-echo "[without change] demo:"; ( "$@" ) > /tmp/seedconfirm.out 2>&1; RC0=$?; tail -2 /tmp/seedconfirm.out; echo "rc=$RC0"
+# (a demonstration that parses the CLI's output may trip over its progress display now and then: up to three tries)
+for try in 1 2 3; do
+  echo "[without change] demo (try $try):"; ( "$@" ) > /tmp/seedconfirm.out 2>&1; RC0=$?; tail -2 /tmp/seedconfirm.out; echo "rc=$RC0"
+  [ $RC0 -eq 0 ] && break
+done
 git apply "$P" || { echo "PATCH DOES NOT APPLY"; exit 2; }
 (cd sourcecode-parser && go build ./... && go build -tags verif ./...) || { echo "DOES NOT BUILD"; exit 2; }
 echo "[with change] baseline:"; REPO_DIR="$WT" /verif/tools/baseline.sh; RCB=$?
